@@ -1,7 +1,7 @@
 (* C14 — Sequencers hand out disjoint gap-free ranges; cursor is the published prefix. *)
 From Coq Require Import List Arith NArith Lia.
 From DC Require Import Disruptor.Claims Disruptor.Pipeline.
-From DC Require Disruptor.SeqApi Disruptor.SeqApiProofs.
+From DC Require Disruptor.SeqApi Disruptor.SeqApiProofs Disruptor.SeqApiMulti.
 Import ListNotations.
 
 (* concurrent claims by any number of threads (any interleaving of loads and compare-and-swaps on the high
@@ -53,7 +53,26 @@ Theorem C14_single_sequencer_api : forall size ng l,
   SeqApi.check true SeqApi.c_init l (SeqApi.sp_run (SeqApi.sp_init size ng) l) = 0%N.
 Proof. exact SeqApiProofs.sp_property. Qed.
 
+(* MultiProducerSequencer (high / low watermark, ready bitmap) driven through the Sequencer API, ring of 2^k slots,
+   EVERY history in which publishes complete in ANY order (counts >= 1, no blocking claim, only outstanding claims are
+   published, consumers never pass the cursor): the property checker can only answer 0 (holds) or 5 (everything
+   published, cursor below the highest claim).  Verdicts 1-4 - a claim that does not continue the previous one or has
+   the wrong length, a cursor that decreases, a cursor PAST AN UNPUBLISHED SEQUENCE - are impossible. *)
+Theorem C14_multi_sequencer_api : forall k ng l,
+  SeqApiMulti.mp_wf (SeqApi.mp_init (2 ^ k) ng) [] l = true ->
+  SeqApi.check false SeqApi.c_init l (SeqApi.mp_run (SeqApi.mp_init (2 ^ k) ng) l) = 0%N \/
+  SeqApi.check false SeqApi.c_init l (SeqApi.mp_run (SeqApi.mp_init (2 ^ k) ng) l) = 5%N.
+Proof. exact SeqApiMulti.mp_property. Qed.
+
+(* verdict 5 does occur: finding D8 on the model (two claims published in the opposite order) *)
+Theorem C14_multi_stranding_refuted :
+  exists l, SeqApiMulti.mp_wf (SeqApi.mp_init 8 1) [] l = true /\
+            SeqApi.check false SeqApi.c_init l (SeqApi.mp_run (SeqApi.mp_init 8 1) l) = 5%N.
+Proof. eexists. exact SeqApiMulti.mp_stranding. Qed.
+
 Print Assumptions C14_claims_tile_in_claim_order.
+Print Assumptions C14_multi_sequencer_api.
+Print Assumptions C14_multi_stranding_refuted.
 Print Assumptions C14_single_sequencer_api.
 Print Assumptions C14_claims_pairwise_disjoint.
 Print Assumptions C14_claims_cover_without_gaps.
